@@ -54,6 +54,11 @@ def selector(kind, a, b, labels, mask=None):
     if kind == 'slice':
         lo, hi = labels.index(la), labels.index(lb)
         return slice(la, lb), (lambda l: lo <= labels.index(l) <= hi), None
+    if kind == 'rslice':
+        # label slice with a negative step: from the HIGHER label down to the lower one, both included; the matches of the
+        # level come in that (descending) order, as for a list selector
+        lo, hi = labels.index(la), labels.index(lb)
+        return slice(lb, la, -1), (lambda l: lo <= labels.index(l) <= hi), [labels[i] for i in range(hi, lo - 1, -1)]
     raise AssertionError(kind)
 
 
@@ -141,13 +146,13 @@ def mk_hloc(tree_name, kinds, tier='quick', timeout=300):
     pre = []
     for d, kind in enumerate(kinds):
         n = len(level_labels(tuples, d))
-        if kind in ('label', 'list', 'slice'):
+        if kind in ('label', 'list', 'slice', 'rslice'):
             params.append((f'a{d}', 'int')); ranges[f'a{d}'] = (0, n - 1)
-        if kind in ('list', 'slice'):
+        if kind in ('list', 'slice', 'rslice'):
             params.append((f'b{d}', 'int')); ranges[f'b{d}'] = (0, n - 1)
         if kind == 'list':
             pre.append(f'a{d} != b{d}')
-        if kind == 'slice':
+        if kind in ('slice', 'rslice'):
             pre.append(f'a{d} <= b{d}')
         if kind == 'mask':
             params += [(f'm{i}', 'bool') for i in range(len(tuples))]
@@ -171,6 +176,8 @@ for _k in QUICK:
     _add(mk_hloc('tree2', _k))
 _add(mk_hloc('treereg', ('all', 'slice')))
 _add(mk_hloc('treereg', ('list', 'slice')))
+_add(mk_hloc('treereg', ('all', 'rslice')))
+_add(mk_hloc('treereg', ('label', 'rslice')))
 _add(mk_hloc('tree3', ('label', 'all', 'label')))
 _add(mk_hloc('tree3', ('all', 'list', 'all')))
 _add(mk_hloc('tree3', ('slice', 'all', 'mask'), timeout=600))
@@ -310,3 +317,75 @@ def _mk_growth(tag, ranges, tier, timeout):
 
 _add(_mk_growth('', {'how': (0, 1), 'o': (0, 3), 'i': (10, 13), 'o2': (2, 3), 'i2': (10, 11)}, 'quick', 400))
 _add(_mk_growth('_wide', {'how': (0, 1), 'o': (0, 3), 'i': (10, 13), 'o2': (0, 3), 'i2': (10, 13)}, 'thorough', 1500))
+
+
+
+# ---------------------------------------------------------------- depth-3 grow-only hierarchy: histories of two appends with reads in between
+
+APPEND_CHOICES = (('b', 'x', 3), ('b', 'y', 1), ('c', 'x', 1), ('b', 'x', 1), ('a', 'x', 9))
+
+
+def _positions(env, key, n):
+    if isinstance(key, slice):
+        return list(range(*key.indices(n)))
+    if isinstance(key, int):
+        return [key]
+    return [env.obs(x) for x in key]
+
+
+def body_go_depth3_history(env, c0, c1, r0, r1):
+    """Start [(a,x,1), (a,x,2), (b,x,1), (b,x,2)]; two appends, each drawn from: new innermost label under the last branch,
+    new middle label under the last outer label, new outer label, a duplicate, a tuple under a non-terminal outer label;
+    optional reads (cached arrays materialised) before each append.  After every step every view agrees with the tuple list."""
+    from vf import rt
+    picks = [concretize(c0, 0, len(APPEND_CHOICES) - 1), concretize(c1, 0, len(APPEND_CHOICES) - 1)]
+    reads = [bool(r0), bool(r1)]
+
+    def run():
+        sf = env.sf
+        tuples = [('a', 'x', 1), ('a', 'x', 2), ('b', 'x', 1), ('b', 'x', 2)]
+        g = sf.IndexHierarchyGO.from_labels(tuples)
+        got, exp = [], []
+
+        def views(ix, ts):
+            s = sf.Series(env.array(list(range(len(ix))), 'int64'), index=ix)
+            return [len(ix), env.obs([list(t) for t in ix]), env.obs(ix.values.tolist()), env.obs(ix.values_at_depth(1).tolist()),
+                    [env.obs(ix.loc_to_iloc(t)) for t in ts], [env.obs(s.loc[t]) for t in ts], [bool(t in ix) for t in ts],
+                    _positions(env, ix.loc_to_iloc(sf.HLoc[ts[-1][0], ts[-1][1]]), len(ix))]
+
+        def ref(ts):
+            n = len(ts)
+            last = ts[-1]
+            sub = [i for i, t in enumerate(ts) if t[0] == last[0] and t[1] == last[1]]
+            return [n, [list(t) for t in ts], [list(t) for t in ts], [t[1] for t in ts], list(range(n)), list(range(n)), [True] * n, sub]
+        for step in range(2):
+            if reads[step]:
+                _ = g.values
+                _ = g.values_at_depth(2)
+            new = APPEND_CHOICES[picks[step]]
+            dup = new in tuples
+            # representable: same branch as the last tuple at the depths that already exist, or a brand-new label at the first new depth
+            last = tuples[-1]
+            if new[0] == last[0]:
+                ok = (new[1] == last[1] and new[2] not in [t[2] for t in tuples if t[:2] == new[:2]]) or (new[1] not in [t[1] for t in tuples if t[0] == new[0]])
+            else:
+                ok = new[0] not in [t[0] for t in tuples]
+            try:
+                g.append(new)
+                accepted = True
+            except (KeyError, RuntimeError, ValueError):
+                accepted = False
+            got.append(accepted if (dup or ok) else 'either')
+            exp.append(False if dup else (True if ok else 'either'))
+            if accepted:
+                tuples = tuples + [new]
+            got.append(views(g, tuples)); exp.append(ref(tuples))
+        return got, exp
+    return rt.untraced(run)
+
+
+_add(Cond('hierarchy_go_depth3_append_history', [('c0', 'int'), ('c1', 'int'), ('r0', 'bool'), ('r1', 'bool')], body_go_depth3_history,
+        ranges={'c0': (0, len(APPEND_CHOICES) - 1), 'c1': (0, len(APPEND_CHOICES) - 1)},
+        functions=['IndexLevelGO.append', 'IndexHierarchyGO.append'],
+        bounds=f'depth-3 IndexHierarchyGO of 4 leaves; two appends, each symbolic over {APPEND_CHOICES} (new leaf / new middle label / new outer label / duplicate / under a non-terminal label); cached arrays read or not before each append',
+        route='after every append: len / iteration / values / values_at_depth / loc_to_iloc and Series lookup of every tuple / membership / HLoc of the last branch agree with the tuple list; duplicates are refused', timeout=400))
